@@ -111,14 +111,13 @@ def repo_full_strings():
 
 
 # molecules well beyond the bounded universes: 45-90 atoms, residues whose atom keys cross 32 and 64, ten and more
-# residues, two-digit multipliers (size-dependent defects: hash-ordered sets of keys, two-digit numbers, the tenth of something)
+# residues, two-digit multipliers (unambiguous libraries only: C08 re-writes and re-resolves them) (size-dependent defects: hash-ordered sets of keys, two-digit numbers, the tenth of something)
 BIG_STRINGS = [
     "{[#PEO]|8}.{#PEO=[$]COC[$]}",
     "{[#OH][#PEO]|12[#OH]}.{#PEO=[$]COC[$],#OH=[$]O}",
     "{[#PS]|5}.{#PS=[$]CC(c1ccccc1)[$]}",
     "{[#A]|20}.{#A=[$]CC[$]}",
     "{[#A][#B]|11[#A]}.{#A=[$]C(C)C,#B=[>]CC(=O)N[<][$]}",
-    "{[#X]([#Y]|3)|4}.{#X=[$]C[$]C[$],#Y=[$]OC[$]}",
 ]
 
 
